@@ -377,7 +377,7 @@ func init() {
 					}
 				case pathsim.EvAssign:
 					if len(ev.Lhs) == 1 && prog.SelField(c.Info, ev.Lhs[0]) == cursor {
-						if ev.Tok != token.INC {
+						if ev.Tok != token.INC && !isPlusOne(c.Info, ev, cursor) {
 							c.Violate(ev.Pos, "[cursor-update] the drain cursor must advance by exactly one per item")
 						}
 						s.A |= bInc
@@ -701,4 +701,27 @@ func (r *Run) mustPrecedeNot(f *prog.FuncInfo, setCall *ast.CallExpr, batch *typ
 		}
 		return true
 	})
+}
+
+// isPlusOne: the assignment event is `f = f + 1`, `f += 1` or `f = alias + 1` with alias a local
+// defined once from f (SelField follows such locals).
+func isPlusOne(info *types.Info, ev *pathsim.Event, f *types.Var) bool {
+	if len(ev.Rhs) != 1 {
+		return false
+	}
+	one := func(e ast.Expr) bool {
+		tv, ok := info.Types[e]
+		return ok && tv.Value != nil && tv.Value.String() == "1"
+	}
+	if ev.Tok == token.ADD_ASSIGN {
+		return one(ev.Rhs[0])
+	}
+	if ev.Tok != token.ASSIGN {
+		return false
+	}
+	b, ok := ast.Unparen(ev.Rhs[0]).(*ast.BinaryExpr)
+	if !ok || b.Op != token.ADD {
+		return false
+	}
+	return (prog.SelField(info, b.X) == f && one(b.Y)) || (prog.SelField(info, b.Y) == f && one(b.X))
 }
